@@ -662,4 +662,9 @@ def gauss_quad(ctx):
     return res
 
 
-RULES = [no_stale, gauss_quad, opd_formula, sphere, pipeline, consumers]
+def arg_forward_rule(ctx):
+    from .common import arg_forward
+    return arg_forward(ctx, 'ARG-FORWARD', 30)
+
+
+RULES = [arg_forward_rule, no_stale, gauss_quad, opd_formula, sphere, pipeline, consumers]
